@@ -120,6 +120,7 @@ type Session struct {
 
 	// Patience bounds the time the harness waits for anything.
 	Patience time.Duration
+	readBuf  [2]int
 }
 
 type doner interface{ Done() <-chan struct{} }
@@ -142,6 +143,9 @@ type Options struct {
 	// PrePaired: both parties already know each other's static key.
 	PrePaired bool
 	Patience  time.Duration
+	// ReadBuf is the size of the buffer the client's / the server's reader
+	// passes to Read (default 40000).
+	ReadBuf [2]int
 }
 
 // New creates the relay, the parties, the listener and the dialer.
@@ -151,6 +155,12 @@ func New(o Options) (*Session, error) {
 		sidName: map[string]string{}, Patience: o.Patience}
 	if s.Patience == 0 {
 		s.Patience = 60 * time.Second
+	}
+	s.readBuf = o.ReadBuf
+	for i := range s.readBuf {
+		if s.readBuf[i] <= 0 {
+			s.readBuf[i] = 40000
+		}
 	}
 	s.ctx, s.cancel = context.WithCancel(context.Background())
 	s.Entropy = []byte{11, 22, 33, 44, 55, 66, 77, 88, 99, 110, 121, 132, 143, 0}
@@ -338,6 +348,12 @@ func (s *Session) Serve() {
 				default:
 				}
 			}()
+			if k >= 400 {
+				// a listener that keeps handing out connections that die
+				// at once: enough has been recorded
+				s.Rec.Emit("note", "what", "accept loop stopped after 400 connections")
+				return
+			}
 		}
 	}()
 }
@@ -500,7 +516,11 @@ func (c *Conn) myDir() byte {
 // plaintext and closes the connection when Read fails, as grpc would.
 func (c *Conn) readLoop() {
 	defer close(c.readDone)
-	buf := make([]byte, 40000)
+	bl := c.S.readBuf[0]
+	if c.Side == "s" {
+		bl = c.S.readBuf[1]
+	}
+	buf := make([]byte, bl)
 	if c.Side == "s" {
 		var hdr [8]byte
 		got := 0
